@@ -30,8 +30,8 @@ func init() {
 		Plan: func(prop, tier string) []Batch {
 			if tier == "thorough" {
 				return []Batch{
-					{Mode: "single-fault", Count: 3000 * framingGroup, Exhaustive: true, Group: framingGroup},
-					{Mode: "seeded", Count: 1500000},
+					{Mode: "single-fault", Count: 6000 * framingGroup, Exhaustive: true, Group: framingGroup},
+					{Mode: "seeded", Count: 4000000},
 				}
 			}
 			return []Batch{
